@@ -6,7 +6,9 @@ import threading
 import common
 
 META = {
-    "level_text": ("Theorems (Lean 4, for every input): the separator check accepts exactly the one-character strings of the exchange's set and the "
+    "level_text": ("The cleared-orders path recovers the order id with the blotter module's own (regenerated) hash length, for every separator, and attaches the "
+                   "cleared order to exactly the order the reference was built for (cleared_attaches_to_its_order). "
+                   "Theorems (Lean 4, for every input): the separator check accepts exactly the one-character strings of the exchange's set and the "
                    "setter leaves the old separator on refusal (so the separator is valid in every reachable state); a reference hash+sep+id is at "
                    "most 32 characters for every strategy name (the hash has 13 characters) and every accepted separator, given an id below 10^18; "
                    "every character of it is accepted by the exchange (the regenerated set is proved equal to letters, digits and -._+*:;~ on ASCII); "
